@@ -16,6 +16,9 @@ def run(tier, seed):
         for fam in ("flow", "stack"):
             xc.judge(rep, fam, 4 if q else 40, seed + 1000, wd, fam[0], OWNS, res=res)
         rep.cov["samples"] = [{"families": ["data", "flow", "stack"], "example": sorted(res.distinct)[:3]}]
+        t8 = xc.table8(rep, wd, False, True, workers=8 if q else 14)
+        rep.cov["exhaustive_8bit"] = {"spec_rows_from_tlc": t8["rows"], "form_variants": t8["variants"], "cases": t8["cases"],
+                                      "note": "every 8-bit operand pair x carry-in (all counts for shifts) of every 8-bit form/shape against tables printed by TLC from X86.tla"}
         xc.finish_cov(rep, res, mc, "Incoming CF/PF/AF/ZF/SF/OF (and DF) drawn at random per case; shift counts from "
                       "{0,1,w-1,w,w+1,31,32,33,63,64,65,128,255,random} in CL and imm8; flag status per class: defined / undefined / unaffected.")
         return rep.finish()
